@@ -589,6 +589,9 @@ fn emit_name_section(cx: &mut EmitContext) {
         .module
         .types
         .iter()
+        // Types for function entry blocks are internal and never emitted, so
+        // they have no index to attach a name to.
+        .filter(|typ| !typ.is_for_function_entry())
         .filter_map(|typ| typ.name.as_ref().map(|name| (typ, name)))
         .map(|(typ, name)| (cx.indices.get_type_index(typ.id()), name))
         .collect::<Vec<_>>();
